@@ -11,6 +11,7 @@ import (
 	"io"
 	"os"
 	"reflect"
+	"runtime"
 	"sort"
 	"strings"
 	"sync"
@@ -526,6 +527,20 @@ func (e *c10env) result(run *c10run) c10result {
 	return res
 }
 
+// c10quiesce waits until the goroutines of a native run have ended: a plain goroutine that is
+// still on its way to a (shimmed) select when the next controlled execution starts would be
+// reported as UNTRACKED.
+var c10baseGoroutines int
+
+func c10quiesce() {
+	for i := 0; i < 20000 && runtime.NumGoroutine() > c10baseGoroutines; i++ {
+		runtime.Gosched()
+		if i > 100 {
+			time.Sleep(50 * time.Microsecond)
+		}
+	}
+}
+
 // finish waits for the writer's save worker (natively) and cancels the writer, which hands the
 // state mergers back to the pool as the real proposal processors do.
 func (run *c10run) finishNative() {
@@ -567,16 +582,14 @@ func c10selections(n, maxlen int) [][]int {
 
 // ---- stage 1: native differential runs -------------------------------------------------
 
-func TestVerifC10Native(t *testing.T) {
-	r := vlib.Start("C10")
-	defer r.Finish()
-	r.Rule("stage 1 (native): input = ordered selection without repetition of <= 2 (quick) / <= 3 (thorough) of 12 pre-signed menu operations over one prior state; each input is processed by a fresh real processor/writer/block-write database with MaxWorkerSize 1, 2, 64, several times, natively scheduled; every run is compared with the first sequential run of that input; non-trivial = inputs with >= 2 operations that reach the state merger")
-	e := c10newEnv()
+func c10native(r *vlib.Run, e *c10env) {
 	maxlen := vlib.Pick(r, 2, 3)
 	reps := vlib.Pick(r, 3, 4)
 	sels := c10selections(len(e.menu), maxlen)
 	r.Set("native_inputs_enumerated", len(sels))
 	r.Set("native_max_selection", maxlen)
+	r.Set("native_runs_per_input", 1+3*reps)
+	defer runtime.GOMAXPROCS(runtime.GOMAXPROCS(4))
 	for i, sel := range sels {
 		if !r.Mine(i) || r.Expired() {
 			continue
@@ -614,9 +627,14 @@ func TestVerifC10Native(t *testing.T) {
 				}
 			}
 		}
-		r.Max("native_max_merge_orders_seen", int64(len(orders)))
+		if len(orders) > 1 {
+			r.Add("native_inputs_with_more_than_one_merge_order_seen", 1)
+		}
+		r.Add("native_inputs", 1)
 		r.Add("native_ns", time.Since(t0).Nanoseconds())
-		r.Sample(map[string]any{"input": in.id(), "class": ref.class})
+		if i%37 == 5 {
+			r.Sample(map[string]any{"input": in.id(), "class": ref.class})
+		}
 	}
 }
 
@@ -649,6 +667,138 @@ func (s *c10stream) Read(p []byte) (int, error) {
 
 var _ io.Reader = (*c10stream)(nil)
 
+// c10dfs is a delay-bounded explorer on top of vsched.Run: the scheduler's default policy (keep
+// running the current thread while it is enabled, else the lowest enabled thread id) is the
+// deterministic base schedule; the search enumerates EVERY choice sequence that deviates from it
+// in at most `bound` scheduling decisions (a deviation = any other enabled thread is chosen at a
+// scheduling point, preemptive or not). Each sequence is generated exactly once (children only
+// deviate after the parent's last deviation). First-level branches are dealt out to the shards.
+type c10dfs struct {
+	build    func() vsched.Scenario
+	bound    int
+	expired  func() bool
+	mine     func(j int64) bool
+	lvl1     int64
+	execs    int64
+	points   int64
+	maxPts   int
+	byDev    map[int]int64
+	outcomes map[string]int64
+	found    []vsched.Found
+	engine   string
+	capped   string
+	rootOut  string
+}
+
+func (x *c10dfs) runOnce(prefix []int, dev int, count bool) *vsched.Exec {
+	sc := x.build()
+	e := vsched.Run(vsched.Options{Prefix: prefix, Horizon: 20000}, sc.Roots...)
+	if e.Diverged != "" {
+		x.engine = e.Diverged + " prefix=" + vsched.ChoicesString(prefix)
+		return e
+	}
+	if e.HorizonHit {
+		x.capped = "horizon"
+		return e
+	}
+	out := sc.Outcome(e)
+	if prefix == nil {
+		x.rootOut = out
+	}
+	if !count {
+		return e
+	}
+	x.execs++
+	x.points += int64(len(e.Points()))
+	if n := len(e.Points()); n > x.maxPts {
+		x.maxPts = n
+	}
+	x.byDev[dev]++
+	x.outcomes[out]++
+	if f := sc.Check(e); f != nil {
+		x.outcomes["FAIL:"+vlib.SigString(f.Sig)]++
+		if len(x.found) < 3 {
+			x.found = append(x.found, vsched.Found{Choices: e.Choices(), Fail: f, Preempt: dev})
+		}
+	}
+	return e
+}
+
+func c10samePoint(a, b vsched.PointRec) bool {
+	return a.NEnabled == b.NEnabled && a.Kind == b.Kind && a.Thread == b.Thread
+}
+
+func (x *c10dfs) explore(countRoot bool) {
+	x.byDev, x.outcomes = map[int]int64{}, map[string]int64{}
+	// determinism self-test: the base schedule twice
+	a := x.runOnce(nil, 0, false)
+	if x.engine != "" || x.capped != "" {
+		return
+	}
+	b := x.runOnce(nil, 0, countRoot)
+	if x.engine != "" {
+		return
+	}
+	pa, pb := a.Points(), b.Points()
+	if len(pa) != len(pb) {
+		x.engine = fmt.Sprintf("NONDETERMINISM: base schedule run twice: %d vs %d points", len(pa), len(pb))
+		return
+	}
+	for i := range pa {
+		if !c10samePoint(pa[i], pb[i]) {
+			x.engine = fmt.Sprintf("NONDETERMINISM: base schedule run twice differs at point %d: %+v vs %+v", i, pa[i], pb[i])
+			return
+		}
+	}
+	x.branch(b, nil, 0)
+}
+
+func (x *c10dfs) branch(e *vsched.Exec, prefix []int, dev int) {
+	if dev >= x.bound {
+		return
+	}
+	pts := e.Points()
+	choices := e.Choices()
+	for i := len(prefix); i < len(pts); i++ {
+		for alt := 1; alt < pts[i].NEnabled; alt++ {
+			if dev == 0 {
+				x.lvl1++
+				if x.mine != nil && !x.mine(x.lvl1) {
+					continue
+				}
+			}
+			if x.engine != "" || x.capped != "" {
+				return
+			}
+			if x.expired != nil && x.expired() {
+				x.capped = "deadline"
+				return
+			}
+			np := append(append(make([]int, 0, i+1), choices[:i]...), alt)
+			c := x.runOnce(np, dev+1, true)
+			if x.engine != "" || x.capped != "" {
+				return
+			}
+			cp := c.Points()
+			if len(cp) <= i {
+				x.engine = fmt.Sprintf("NONDETERMINISM: replayed prefix ended early (%d points) prefix=%s", len(cp), vsched.ChoicesString(np))
+				return
+			}
+			for k := 0; k < i; k++ {
+				if !c10samePoint(pts[k], cp[k]) {
+					x.engine = fmt.Sprintf("NONDETERMINISM: replayed prefix diverged at point %d: %+v vs %+v prefix=%s", k, pts[k], cp[k], vsched.ChoicesString(np))
+					return
+				}
+			}
+			if cp[i].NEnabled != pts[i].NEnabled {
+				x.engine = fmt.Sprintf("NONDETERMINISM: enabled set changed at branching point %d prefix=%s", i, vsched.ChoicesString(np))
+				return
+			}
+			x.branch(c, np, dev+1)
+		}
+	}
+}
+
 type c10scenario struct {
 	sel     []int
 	workers int64
@@ -676,63 +826,74 @@ func (e *c10env) schedScenarios(r *vlib.Run) []c10scenario {
 	}
 	// inputs whose operations meet in one state merger / one processor
 	conflicts := [][]int{
-		sel("join-c1", "join-c2"),         // two nodes appended to the suffrage state, two candidates removed
-		sel("join-c1", "join-c1-dup"),     // second join of the same candidate is refused in PreProcess
-		sel("disjoin-n1", "expel-n1"),     // same node leaves twice (operation + reserved expel)
-		sel("disjoin-n1", "expel-n2"),     // two nodes leave
-		sel("policy-a", "policy-b"),       // only one network-policy operation per block
-		sel("cand-c3", "cand-cx"),         // two candidates added, one replaces an expired record
-		sel("join-c1", "disjoin-n1"),      // join + leave on the suffrage state
-		sel("join-c1", "cand-c3"),         // remove + add on the candidates state
-		sel("expel-n2", "expel-n1"),       // two reserved operations
-		sel("join-c2", "policy-a"),        // three states
-		sel("join-c1", "join-c2-fewsigns"),
+		sel("join-c1", "join-c2"),              // two nodes appended to the suffrage state, two candidates removed
+		sel("join-c2", "join-c1"),              // same, listed the other way round
+		sel("join-c1", "join-c1-dup"),          // second join of the same candidate is refused in PreProcess
+		sel("disjoin-n1", "expel-n1"),          // same node leaves twice (operation + reserved expel)
+		sel("disjoin-n1", "expel-n2"),          // two nodes leave
+		sel("policy-a", "policy-b"),            // only one network-policy operation per block
+		sel("cand-c3", "cand-cx"),              // two candidates added, one replaces an expired record
+		sel("join-c1", "disjoin-n1"),           // join + leave on the suffrage state
+		sel("join-c1", "cand-c3"),              // remove + add on the candidates state
+		sel("expel-n2", "expel-n1"),            // two reserved operations
+		sel("join-c2", "policy-a"),             // three states
+		sel("join-c1", "join-c2-fewsigns"),     // second join refused for too few signs
 		sel("expel-n2-in-proposal", "join-c1"), // ignored operation leaves a hole in the operations tree
+		sel("invalid-op", "cand-c3"),           // reason-processed operation + a state
 	}
 	var scs []c10scenario
-	if !r.Thorough() {
-		for k, c := range conflicts {
-			bound := 1
-			ws := []int64{2}
-			if k >= 6 {
-				bound = 0
-				ws = []int64{2, 64}
-			}
+	add := func(sels [][]int, ws []int64, seed string, collide, desc bool, bound int) {
+		for _, c := range sels {
 			for _, w := range ws {
-				scs = append(scs, c10scenario{sel: c, workers: w, seed: "A", bound: bound})
+				scs = append(scs, c10scenario{sel: c, workers: w, seed: seed, collide: collide, desc: desc, bound: bound})
 			}
 		}
-		scs = append(scs, c10scenario{sel: conflicts[0], workers: 64, seed: "B", collide: true, desc: true, bound: 0})
-		scs = append(scs, c10scenario{sel: conflicts[0], workers: 1, seed: "A", bound: 0})
+	}
+	all2 := c10selections(len(e.menu), 2)
+	if !r.Thorough() {
+		add(all2, []int64{1, 2, 64}, "A", false, false, 1)
+		add(conflicts[:6], []int64{2, 64}, "B", true, true, 1)
+		add([][]int{conflicts[0], conflicts[7]}, []int64{2}, "A", false, false, 2)
 		return scs
 	}
-	for _, c := range conflicts {
-		for _, w := range []int64{1, 2, 64} {
-			scs = append(scs, c10scenario{sel: c, workers: w, seed: "A", bound: 1})
+	add(all2, []int64{1, 64}, "A", false, false, 1)
+	add(all2, []int64{2}, "A", false, false, 2)
+	add(conflicts[:6], []int64{64}, "A", false, false, 2)
+	add(all2, []int64{2, 64}, "B", true, true, 1)
+	add(conflicts, []int64{2}, "B", false, true, 1)
+	add(conflicts, []int64{2}, "A", true, false, 1)
+	var all3 [][]int
+	for _, c := range c10selections(len(e.menu), 3) {
+		if len(c) == 3 {
+			all3 = append(all3, c)
 		}
 	}
+	add(all3, []int64{64}, "A", false, false, 1)
 	return scs
 }
 
-func TestVerifC10(t *testing.T) {
-	r := vlib.Start("C10")
-	defer r.Finish()
-	r.Rule("stage 2 (controlled scheduler): scenario = ordered selection of menu operations x MaxWorkerSize x shard placement (pinned seed; processor maps spread / all-in-one-shard) x map-range order; one root thread calls DefaultProposalProcessor.Process on fresh real objects; all interleavings within the preemption bound of that thread and every goroutine the processor, its job workers, the writer's save worker and the states merger's close worker start; every execution's (manifest hash, operations root, states root, suffrage hash, error) must equal the sequential native reference of the input; non-trivial = scenario in which more than one arrival order at the states merger / operations tree was observed")
-	r.Assume("goleveldb and the JSON encoder run as atomic steps of the calling thread; the FSWriter is a recording stub")
-	r.Assume("stage 2 builds the processor as a copy of one made by NewDefaultProposalProcessor with fresh oprs/stcache sharded maps of 32/512 shards and harness-chosen placement instead of 32/65535 shards and a random djb2 seed (lock sharing only)")
-	e := c10newEnv()
+func c10sched(r *vlib.Run, e *c10env) {
 	scs := e.schedScenarios(r)
 	r.Set("sched_scenarios_enumerated", len(scs))
+	shard, nshards := r.Shard()
 	orig := crand.Reader
 	defer func() { crand.Reader = orig }()
-	for i, s := range scs {
-		if !r.Mine(i) || r.Expired() {
-			continue
+	var global int64 // first-level branches over all scenarios, dealt round-robin to the shards
+	for _, s := range scs {
+		if r.Expired() {
+			break
 		}
 		s := s
 		in := e.newInput(s.sel)
 		id := fmt.Sprintf("sched|%s|w=%d|seed=%s|collide=%v|desc=%v", in.id(), s.workers, s.seed, s.collide, s.desc)
-		if rid, rp := r.Replaying(); rp {
+		if f := os.Getenv("C10_ONLY"); f != "" && !strings.Contains(id, f) {
+			continue
+		}
+		if b := os.Getenv("C10_BOUND"); b != "" {
+			fmt.Sscan(b, &s.bound)
+		}
+		rid, replaying := r.Replaying()
+		if replaying {
 			if k := strings.LastIndex(rid, "#"); k < 0 || rid[:k] != id {
 				continue
 			}
@@ -741,7 +902,9 @@ func TestVerifC10(t *testing.T) {
 		ref0 := e.newRun(in, 1)
 		ref0.process()
 		ref := e.result(ref0)
+		nmerge := len(ref0.rec.merges)
 		ref0.finishNative()
+		c10quiesce()
 		tmpl, err := isaac.NewDefaultProposalProcessor(in.proposal, e.previous, isaac.NewDefaultProposalProcessorArgs())
 		c10must(err)
 
@@ -777,11 +940,14 @@ func TestVerifC10(t *testing.T) {
 		crand.Reader = stream
 		vsched.Descending = s.desc
 		restore := func() { crand.Reader = orig; vsched.Descending = false }
-		if rid, rp := r.Replaying(); rp {
+		if replaying {
 			k := strings.LastIndex(rid, "#")
 			sc := build()
 			x := vsched.Run(vsched.Options{Prefix: vsched.ParseChoices(rid[k+1:])}, sc.Roots...)
 			restore()
+			if x.Diverged != "" {
+				panic("engine error in replay of " + rid + ": " + x.Diverged)
+			}
 			r.Trace()
 			if f := sc.Check(x); f != nil {
 				r.Violation(rid, f.Sig, f.Detail, nil)
@@ -789,50 +955,85 @@ func TestVerifC10(t *testing.T) {
 			continue
 		}
 		if os.Getenv("C10_TRACE") != "" {
-			sc := build()
-			x := vsched.Run(vsched.Options{Log: true}, sc.Roots...)
+			for k := 0; k < 3; k++ {
+				sc := build()
+				x := vsched.Run(vsched.Options{Log: true}, sc.Roots...)
+				fmt.Println("TRACE", k, id)
+				fmt.Println(strings.Join(x.Log, "\n"))
+			}
 			restore()
-			fmt.Println("TRACE", id)
-			fmt.Println(strings.Join(x.Log, "\n"))
 			continue
 		}
 		t0 := time.Now()
-		res := vsched.Explore(vsched.Config{Name: id, Bound: s.bound, Build: build, Expired: r.Expired, MaxFound: 2, Horizon: 20000})
+		base := global
+		x := &c10dfs{build: build, bound: s.bound, expired: r.Expired,
+			mine: func(j int64) bool { return nshards <= 1 || int((base+j)%int64(nshards)) == shard }}
+		owner := nshards <= 1 || int(base%int64(nshards)) == shard // the shard that counts the base execution of this scenario
+		x.explore(owner)
+		global += x.lvl1 + 1
 		restore()
-		if res.EngineError != "" {
-			panic("engine error in " + id + ": " + res.EngineError)
+		if x.engine != "" {
+			panic("engine error in " + id + ": " + x.engine)
 		}
-		r.TraceN(res.Executions)
-		r.TransitionN(res.Points)
-		r.EvalN(res.Executions)
-		r.Add("sched_scenarios", 1)
-		r.Add(fmt.Sprintf("sched_scenarios_bound%d", s.bound), 1)
+		r.TraceN(x.execs)
+		r.TransitionN(x.points)
+		r.EvalN(x.execs)
 		r.Add("sched_ns", time.Since(t0).Nanoseconds())
-		for b, n := range res.ByPreemptions {
-			r.Add(fmt.Sprintf("sched_executions_with_%d_preemptions", b), n)
+		for b, n := range x.byDev {
+			r.Add(fmt.Sprintf("sched_executions_with_%d_deviations", b), n)
 		}
-		if res.Capped != "" {
-			r.Cap(res.Capped + " in " + id)
-		} else {
-			r.Min("preemption_bound_completed", int64(res.BoundCompleted))
+		if x.capped != "" {
+			r.Cap(x.capped + " in " + id)
 		}
-		r.Max("max_points_per_execution", int64(res.MaxPoints))
-		if len(res.Outcomes) > 1 {
-			r.Nontrivial(id)
+		r.Max("max_points_per_execution", int64(x.maxPts))
+		norders := 0
+		for o, n := range x.outcomes {
+			if strings.HasPrefix(o, "FAIL:") {
+				continue
+			}
+			norders++
+			_ = n
 		}
-		r.Max("max_arrival_orders_per_scenario", int64(len(res.Outcomes)))
-		for o := range res.Outcomes {
-			r.State(id + "=>" + o)
-			r.Outcome(strings.SplitN(o, " | ", 2)[0])
+		r.Max("max_arrival_orders_per_scenario_and_shard", int64(norders))
+		if owner {
+			r.Add("sched_scenarios", 1)
+			r.Add(fmt.Sprintf("sched_scenarios_deviation_bound_%d", s.bound), 1)
+			r.State(id)
+			r.Outcome(strings.SplitN(x.rootOut, " | ", 2)[0])
+			if nmerge >= 2 {
+				r.Nontrivial(id)
+			}
+			r.Sample(map[string]any{"scenario": id, "deviation_bound": s.bound, "first_level_branches": x.lvl1, "points_base_schedule": x.maxPts})
 		}
-		for _, f := range res.Found {
-			r.Violation(id+"#"+vsched.ChoicesString(f.Choices), f.Fail.Sig, f.Fail.Detail+fmt.Sprintf(" (preemptions=%d)", f.Preempt), nil)
+		for o := range x.outcomes {
+			if !strings.HasPrefix(o, "FAIL:") && o != x.rootOut {
+				r.Add("sched_executions_groups_with_other_arrival_order_than_base_schedule", 1)
+			}
 		}
-		r.Sample(map[string]any{"scenario": id, "bound": s.bound, "executions": res.Executions, "by_preemptions": fmt.Sprint(res.ByPreemptions),
-			"points_max": res.MaxPoints, "arrival_orders": len(res.Outcomes), "ms": time.Since(t0).Milliseconds()})
+		for _, f := range x.found {
+			r.Violation(id+"#"+vsched.ChoicesString(f.Choices), f.Fail.Sig, f.Fail.Detail+fmt.Sprintf(" (deviations=%d)", f.Preempt), nil)
+		}
 		if os.Getenv("C10_STATS") != "" {
-			fmt.Printf("STATS %s bound=%d execs=%d by=%v points_max=%d orders=%d ms=%d capped=%q\n", id, s.bound, res.Executions, res.ByPreemptions,
-				res.MaxPoints, len(res.Outcomes), time.Since(t0).Milliseconds(), res.Capped)
+			fmt.Printf("STATS %s bound=%d execs=%d by=%v lvl1=%d points_max=%d orders=%d ms=%d capped=%q\n", id, s.bound, x.execs, x.byDev, x.lvl1,
+				x.maxPts, norders, time.Since(t0).Milliseconds(), x.capped)
 		}
+	}
+}
+
+func TestVerifC10(t *testing.T) {
+	r := vlib.Start("C10")
+	defer r.Finish()
+	r.Rule("inputs = ordered selections without repetition of 13 pre-signed menu operations (valid joins c1/c2, join with too few signs, duplicate join, candidates c3 / expired cx, disjoin n1, expels of n2 / n1 arriving as reserved operations through an expel INIT voteproof, two network-policy changes, an expel listed in the proposal body, an operation the pool reports invalid) over one prior state (suffrage n0,n1,n2; candidates c1,c2 valid, cx expired; one network policy). Stage 1 (native): every selection of <= 2 (quick) / <= 3 (thorough) operations, MaxWorkerSize 1/2/64, repeated native runs against the first sequential run. Stage 2 (controlled scheduler, deciding): scenario = selection x MaxWorkerSize x shard placement x map-range order; one thread calls DefaultProposalProcessor.Process on fresh real objects; EVERY schedule deviating from the deterministic base schedule in <= k scheduling decisions (delay bound k) of that thread and all goroutines started by the processor, its job workers, the writer's save worker and the states merger's close worker; each execution's (manifest hash, operations root, states root, suffrage hash, error) must equal the sequential reference; states = inputs and scenarios; non-trivial = >= 2 operations of the input reach the states merger")
+	r.Assume("goleveldb and the JSON encoder run as atomic steps of the calling thread; the FSWriter is a recording stub; prior states come from a pure map-backed GetStateFunc")
+	r.Assume("stage 2 builds the processor as a copy of one made by NewDefaultProposalProcessor with fresh oprs/stcache sharded maps of 32/512 shards and harness-chosen placement (spread, or all keys in one shard) instead of 32/65535 shards and a random djb2 seed; crypto/rand.Reader is pinned per scenario so that the sharded maps created inside Process get the same seed in every execution (placement decides lock sharing only)")
+	e := c10newEnv()
+	time.Sleep(2 * time.Millisecond)
+	c10baseGoroutines = runtime.NumGoroutine()
+	if rid, rp := r.Replaying(); !rp || strings.HasPrefix(rid, "native|") {
+		c10native(r, e)
+		c10quiesce()
+	}
+	if rid, rp := r.Replaying(); !rp || strings.HasPrefix(rid, "sched|") {
+		c10sched(r, e)
 	}
 }
